@@ -671,10 +671,12 @@ KNOWN_REPLAYS = [
 ]
 
 
-def run_property(chk, pid, oracles, want=('main',), restore=None, nq=280, nt=3000, maxlen=12, extra_corpus=(), before_finish=None, fault_stream=0):
+def run_property(chk, pid, oracles, want=('main',), restore=None, nq=280, nt=3000, maxlen=12, extra_corpus=(), before_finish=None, fault_stream=0, extra_props=()):
     """oracles: list of step-level oracle functions; restore: dict of kwargs for restore_hook_factory or None"""
     quick = chk.tier == 'quick'
     model = chk.lean('XvcRepo', f'XvcRepo.Props.{pid}', exe='repomodel', extra_modules=['XvcRepo.Model', 'XvcRepo.Cache', 'XvcRepo.NoLoss', 'XvcRepo.RecGrow'])
+    for extra in extra_props:          # further property files of the same property (command-level theorems)
+        chk.lean('XvcRepo', extra, exe=None, extra_modules=['XvcRepo.Materialise'])
     xvc = chk.build_xvc()
     r = Runner(chk, xvc, model)
     have_model = os.path.exists(model)
